@@ -1,0 +1,50 @@
+//go:build verif
+
+package runner
+
+// Contracts for the deductive verifier in /verif (govc).  This file contains comments only;
+// it is compiled only with -tags verif and declares nothing.
+
+// Run is where C15 and C18 are stated for a whole run, over the ghost log of file-system writes ($fsw) and of
+// standard-output prints ($out) that the contracts of os.OpenFile, os.WriteFile and fmt.Println maintain:
+//   - at most two writes, and only to conf.Log (first, only with -log) and conf.Output (C15);
+//   - no write to conf.Output with -dry, and none unless every earlier stage succeeded: an error return
+//     after a write to conf.Output can only be the write's own failure (C15);
+//   - a successful non-dry run writes conf.Output exactly once, and with -print prints exactly the written
+//     bytes followed by a newline; without -print it prints nothing itself (C18);
+//   - with -log the log file is opened whether or not the run is dry (C18).
+// Two links of the well-formedness chain are ASSUMED here, not proved (assume-after, listed by the checker):
+// the method entries handed to CreateFunctions satisfy its precondition (Parse establishes it entry by
+// entry but does not export it through the nested slices), and the functions CreateFunctions
+// returns satisfy Generate's. Both only carry memory-safety preconditions, no property clause depends on
+// what they say beyond that.
+
+//@ import generator "github.com/reedom/convergen/pkg/generator"
+//@ import bld "github.com/reedom/convergen/pkg/builder"
+//@ import parser "github.com/reedom/convergen/pkg/parser"
+//@
+//@ spec logged(conf config.Config) int = cond(conf.Log != "", 1, 0)
+//@
+//@ func Run(conf) (err)
+//@   effects fs-write, fs-read, parsefile, log, stdout, stderr, random
+//@   assigns anything
+//@   split exits
+//@   assume-before CreateFunctions: forall(j, 0, len($arg1), bld.entryOK($arg1[j]))
+//@   assume-after CreateFunctions: generator.wfFuncs($res0)
+//@   ensures {C15,C18} $fsw.n <= old($fsw.n) + logged(conf) + 1
+//@   ensures {C15,C18} conf.Log != "" ==> $fsw.n >= old($fsw.n) + 1
+//@   ensures {C15,C18} conf.Log != "" ==> $fsw.path[old($fsw.n)] == conf.Log
+//@   ensures {C15,C18} forall(i, old($fsw.n) + logged(conf), $fsw.n, $fsw.path[i] == conf.Output)
+//@   ensures {C15} conf.DryRun ==> $fsw.n == old($fsw.n) + logged(conf)
+//@   ensures {C15} err != nil && $fsw.n == old($fsw.n) + logged(conf) + 1 ==> hasPrefix(errmsg(err), "error on writing to the file.")
+//@   ensures {C18,C15} err == nil && !conf.DryRun ==> $fsw.n == old($fsw.n) + logged(conf) + 1
+//@   ensures {C15} forall(i, 0, old($fsw.n), $fsw.path[i] == old($fsw.path[i]) && $fsw.data[i] == old($fsw.data[i]))
+//@   ensures {C18} err == nil && conf.Prints ==> $out.n == old($out.n) + 1
+//@   ensures {C18} err == nil && conf.Prints && !conf.DryRun ==> $out.data[old($out.n)] == string($fsw.data[$fsw.n-1]) + "\n"
+//@   atcall NewParser: {C12,C18} $arg0 == conf.Input && $arg1 == conf.Output
+//@   atcall Generate: {C15,C18} $arg1 == conf.Output && $arg2 == conf.Prints && $arg3 == conf.DryRun
+//@   atcall OpenFile: {C15,C18} $arg0 == conf.Log && conf.Log != ""
+//@   loop 1 invariant $k <= len(methods) && generator.wfBlocks(funcBlocks) && (funcBlocks == nil || fresh(funcBlocks))
+//@   loop 1 invariant parser.wfP(p) && bld.wfFB(builder) && forall(i, 0, len(p.intfEntries), p.intfEntries[i] != nil && p.intfEntries[i].intf != nil)
+//@   loop 1 invariant $fsw.n == old($fsw.n) + logged(conf) && (conf.Log != "" ==> $fsw.path[old($fsw.n)] == conf.Log) && $out.n == old($out.n)
+//@   loop 1 invariant forall(i, 0, old($fsw.n), $fsw.path[i] == old($fsw.path[i]) && $fsw.data[i] == old($fsw.data[i]))
